@@ -101,7 +101,7 @@ func (r *Reader) ReadFrame() (Frame, error) {
 		nl := binary.BigEndian.Uint32(lens[:4])
 		vl := binary.BigEndian.Uint32(lens[4:])
 
-		nv := make([]byte, int(nl+vl))
+		nv := make([]byte, int(nl)+int(vl))
 		if _, err := io.ReadFull(r.r, nv); err != nil {
 			return nil, err
 		}
